@@ -36,9 +36,12 @@ Section Keyed.
     eapply perm_trans; [apply perm_skip, IH | apply perm_swap].
   Qed.
 
+  Lemma isort_cons : forall (x : K * V) t, isort ltb (x :: t) = ins ltb x (isort ltb t).
+  Proof. reflexivity. Qed.
+
   Lemma isort_perm : forall (l : list (K * V)), Permutation (isort ltb l) l.
   Proof.
-    induction l as [|x t IH]; cbn; auto.
+    induction l as [|x t IH]; [cbn; auto|]. rewrite isort_cons.
     eapply perm_trans; [apply ins_perm | apply perm_skip, IH].
   Qed.
 
@@ -73,10 +76,11 @@ Section Keyed.
 
   Lemma isort_ssorted : forall l, NoDup (map fst l) -> ssorted (isort ltb l).
   Proof.
-    induction l as [|x t IH]; cbn; intros Hnd; [constructor|].
-    inversion Hnd; subst.
-    apply ins_ssorted; auto.
-    intros y Hy Heq. apply isort_in in Hy. apply H1. rewrite <- Heq. apply in_map; auto.
+    induction l as [|x t IH]; intros Hnd; [constructor|]. rewrite isort_cons. cbn in Hnd.
+    inversion Hnd as [|? ? Hni Hnd']; subst.
+    apply ins_ssorted.
+    - apply IH; exact Hnd'.
+    - intros y Hy Heq. apply (proj1 (isort_in t y)) in Hy. apply Hni. rewrite <- Heq. apply in_map; auto.
   Qed.
 
   Lemma ssorted_key_neq : forall x l, Forall (klt x) l -> forall y, In y l -> fst y <> fst x.
@@ -347,4 +351,9 @@ Lemma fold_left_concat {A B} (f : A -> B -> A) (ls : list (list B)) (a : A) :
   fold_left (fun acc d => fold_left f d acc) ls a = fold_left f (List.concat ls) a.
 Proof.
   revert a; induction ls as [|d t IH]; cbn; intros; auto. rewrite fold_left_app. apply IH.
+Qed.
+
+Lemma NoDup_app_snoc {A} (l : list A) (x : A) : NoDup l -> ~ In x l -> NoDup (l ++ [x]).
+Proof.
+  intros Hn Hx. eapply Permutation_NoDup; [apply Permutation_cons_append|]. constructor; auto.
 Qed.
